@@ -94,8 +94,15 @@ func (w *world) analyseLog(es []*rm.Entry, o logOpts) []*evid.Violation {
 		if _, known := w.spec[e.Host]; !known {
 			continue
 		}
-		if o.contin != nil && o.contin(e) && w.nMirror > 0 {
+		if o.contin != nil && o.contin(e) && w.nMirror > 0 && !timingOff {
+			// A paged list is continued at the URL of the Link header while the client still walks its
+			// list of mirror entries: failures of that URL are booked on whichever entry is current, so
+			// from here on the client's idea of "who is backing off" cannot be inferred from the log
+			// (clause 5 is skipped) and clause 4 violations are attributed to that mechanism.
 			timingOff = true
+			for _, n := range w.names {
+				get(n).dirty = true
+			}
 		}
 		s := get(e.Host)
 		ec := w.classify(e)
@@ -103,19 +110,24 @@ func (w *world) analyseLog(es []*rm.Entry, o logOpts) []*evid.Violation {
 			break
 		}
 		// ---- clause (4): what earlier failures demand of this arrival
-		if !timingOff {
+		{
+			sigRA, sigBO, note := "retry-after-not-honoured", "backoff-delay-not-observed", ""
+			if timingOff {
+				sigRA, sigBO = "paged-continuation-bypasses-host-backoff", "paged-continuation-bypasses-host-backoff"
+				note = " [the list is being continued at a Link URL while mirrors are configured: every mirror entry re-sends the request to the SAME host and books the failure on itself]"
+			}
 			if s.raOn {
 				if e.Arrive < s.raUntil {
-					add(evid.V("retry-after-not-honoured", "host %s answered request #%d with %s and Retry-After at %v; the next request to it (#%d) arrived at %v, earlier than the requested delay allows (%v)\n%s",
-						short(e.Host), s.raFrom.Seq, s.raFrom.Fault, s.raFrom.Done, e.Seq, e.Arrive, s.raUntil, dumpLog(es)))
+					add(evid.V(sigRA, "host %s answered request #%d with %s and Retry-After at %v; the next request to it (#%d) arrived at %v, earlier than the requested delay allows (%v)%s\n%s",
+						short(e.Host), s.raFrom.Seq, s.raFrom.Fault, s.raFrom.Done, e.Seq, e.Arrive, s.raUntil, note, dumpLog(es)))
 				}
 				s.raOn = false
 			}
 			if s.chain && !s.chainEnd {
 				s.j++
 				if need := s.d1 + time.Duration(s.j)*w.dInit; e.Arrive < need {
-					add(evid.V("backoff-delay-not-observed", "host %s failed request #%d (%s) at %v; request #%d is the %d. request to that host since then and arrived at %v, before %v = failure + %d x delayInit(%v)\n%s",
-						short(e.Host), s.d1e.Seq, s.d1e.Fault, s.d1, e.Seq, s.j, e.Arrive, need, s.j, w.dInit, dumpLog(es)))
+					add(evid.V(sigBO, "host %s failed request #%d (%s) at %v; request #%d is the %d. request to that host since then and arrived at %v, before %v = failure + %d x delayInit(%v)%s\n%s",
+						short(e.Host), s.d1e.Seq, s.d1e.Fault, s.d1, e.Seq, s.j, e.Arrive, need, s.j, w.dInit, note, dumpLog(es)))
 				}
 				// the client lowers its failure counter after more than 5 completed requests (successful
 				// ones, and failed ones whose response the caller closes): stop well before that
